@@ -489,6 +489,40 @@ def sec_intrinsic(rep, tier):
     return len(items)
 
 
+def _history_worker(sub, seq):
+    """One process, one sequence of (family, item): every obligation of every item is discharged again AFTER
+    the earlier items of the sequence were evaluated in the same interpreter -- a coefficient class must not
+    remember what another kind / process / order asked before (class-level or module-level memos)."""
+    done = []
+    for fam, item in seq:
+        n0 = len(sub.obs)
+        {"heavy": _heavy_worker, "intrinsic": _intrinsic_worker}[fam](sub, item)
+        for o in sub.obs[n0:]:
+            o.name = o.name.replace("C08/", "C08/history/", 1) + f"/evaluated after {[f'{f}:{i[0]}-{i[1]}@{i[4]}' for f, i in done] or 'nothing'}"
+        done.append((fam, item))
+
+
+def sec_history(rep, tier):
+    """'order by order, for every contribution' also after other contributions were computed: sequences of
+    kinds (F2, FL, F3 -- whose leading orders differ -- in two orders), of families and of perturbative orders,
+    each sequence in one process."""
+    ih = lambda proc, kind, order: ("intrinsic", (proc, kind, 4, 3, order, 1))  # noqa: E731
+    hv = lambda proc, kind, order: ("heavy", (proc, kind, 4, 3, order, max(order, 1)))  # noqa: E731
+    seqs = [
+        tuple(ih("CC", k, o) for k in ("F2", "FL", "F3") for o in (0, 1)),
+        tuple(ih("CC", k, o) for k in ("FL", "F3", "F2") for o in (1, 0)),
+        tuple(ih("NC", k, o) for k in ("F2", "FL", "F3", "g1") for o in (1,)),
+        tuple(ih("NC", k, o) for k in ("g1", "F3", "FL", "F2") for o in (1,)),
+        tuple(hv("CC", k, o) for k in ("F2", "FL", "F3") for o in (1,)) + tuple(ih("CC", k, 1) for k in ("F3", "FL")),
+        tuple(hv("CC", k, o) for k in ("F3", "FL", "F2") for o in (1, 0)),
+    ]
+    if rep.extra.get("_gather") is not None:
+        rep.extra["_gather"] += [("history", s_) for s_ in seqs]
+        return len(seqs)
+    parallel(rep, seqs, _history_worker, chunk=1)
+    return len(seqs)
+
+
 def sec_heavy(rep, tier):
     """Massive vs asymptotic heavy kernels, orders within reach."""
     from yadism.coefficient_functions import heavy
@@ -810,7 +844,7 @@ def sec_selfcheck(rep):
 
 def _any_worker(sub, tagged):
     tag, item = tagged
-    {"heavy": _heavy_worker, "intrinsic": _intrinsic_worker, "nnlo": _nnlo_worker}[tag](sub, item)
+    {"heavy": _heavy_worker, "intrinsic": _intrinsic_worker, "nnlo": _nnlo_worker, "history": _history_worker}[tag](sub, item)
 
 
 def sec_convolution_lemma(rep):
@@ -824,7 +858,7 @@ def sec_convolution_lemma(rep):
 
 
 def run(rep, tier, seed, only=None):
-    secs = {"heavy": lambda: sec_heavy(rep, tier), "intrinsic": lambda: sec_intrinsic(rep, tier), "nnlo": lambda: sec_heavy_nnlo(rep, tier), "missing": lambda: sec_missing(rep, tier), "weights": lambda: sec_weights(rep, tier), "missingbounded": lambda: sec_missing_bounded(rep, tier), "schemedispatch": lambda: H.scheme_families(rep, tier), "special": lambda: H.special_functions_contract(rep), "convolution": lambda: sec_convolution_lemma(rep), "selfcheck": lambda: sec_selfcheck(rep)}
+    secs = {"heavy": lambda: sec_heavy(rep, tier), "intrinsic": lambda: sec_intrinsic(rep, tier), "nnlo": lambda: sec_heavy_nnlo(rep, tier), "history": lambda: sec_history(rep, tier), "missing": lambda: sec_missing(rep, tier), "weights": lambda: sec_weights(rep, tier), "missingbounded": lambda: sec_missing_bounded(rep, tier), "schemedispatch": lambda: H.scheme_families(rep, tier), "special": lambda: H.special_functions_contract(rep), "convolution": lambda: sec_convolution_lemma(rep), "selfcheck": lambda: sec_selfcheck(rep)}
     # the long O(a_s^2) items run first and share the pool with the short ones
     rep.extra["_gather"] = [] if rep.replay_target is None else None
     for name, f in secs.items():
@@ -833,7 +867,7 @@ def run(rep, tier, seed, only=None):
         rep.add(guarded(f"C08/{name}", lambda f=f: (f(), [])[1]))
     gathered = rep.extra.pop("_gather", None)
     if gathered:
-        gathered.sort(key=lambda t: 0 if t[0] == "nnlo" else 1)
+        gathered.sort(key=lambda t: 0 if t[0] == "nnlo" else (1 if t[0] == "history" else 2))
         rep.add(guarded("C08/pool", lambda: (parallel(rep, gathered, _any_worker, chunk=1), [])[1]))
     rep.assume(
         "L-lim (textbook): a polynomial in log(eps) and in atoms analytic (Li2: Hoelder) at eps = 0 over a denominator that does not vanish there differs from its value 'at eps = 0 with log(eps) kept' by O(eps log^k eps)",
